@@ -25,7 +25,7 @@ GRAPH = dict(Shots='{"s1", "s2", "s3"}', Calcs='{"c1", "c2"}', WeaponOf='[s1 |->
 class Pool:
     """s1, s3 share weapon w1; s1, s2 share ammunition a1 (model with bullet dimensions); s3's ammunition a2 has none"""
 
-    def __init__(self, zero_raw=None):
+    def __init__(self, zero_raw=None, content=None):
         m = impl.pb()
         U = m.Unit
         self.m = m
@@ -47,10 +47,23 @@ class Pool:
         }
         self.weapon_of = {"s1": "w1", "s2": "w2", "s3": "w1"}
         self.ammo_of = {"s1": "a1", "s2": "a1", "s3": "a2"}
+        # a shot with a malformed drag table (a repeated Mach row): the drag curve cannot be built, every computation raises
+        bad_table = [dict(p) for p in m.TableG7[:20]] + [dict(m.TableG7[19])] + [dict(p) for p in m.TableG7[20:]]
+        self.shots["sbad"] = m.Shot(m.Weapon(U.Inch(2.0), U.Inch(10.0)), m.Ammo(m.DragModel(0.3, bad_table), U.FPS(2500)), U.Degree(0))
+        self.content = {"a1": 0, "a2": 0}
+        for a, n in (content or {}).items():
+            for _ in range(n):
+                self.edit_table(a)
         if zero_raw:
             for w, raw in zero_raw.items():
                 self.weapons[w].zero_elevation = U.Radian(raw)
         self.calcs = {c: m.Calculator(_config=dict(cfg)) for c, cfg in CFG.items()}
+
+    def edit_table(self, a):
+        """the caller rescales the drag table of ammunition `a` in place (2 % more drag)"""
+        for pnt in self.ammos[a].dm.drag_table:
+            pnt.CD = pnt.CD * 1.02
+        self.content[a] += 1
 
     def zero_raw(self):
         return {w: float(o.zero_elevation.raw_value) for w, o in self.weapons.items()}
@@ -60,6 +73,8 @@ class Pool:
         m = self.m
         rest = []
         for n, s in sorted(self.shots.items()):
+            if n == "sbad":
+                continue
             rest.append((n, impl.deep_fp(s.look_angle), impl.deep_fp(s.relative_angle), impl.deep_fp(s.cant_angle),
                          impl.deep_fp(s.atmo), impl.deep_fp(list(s._winds)), id(s.weapon), id(s.ammo), id(s.atmo)))
         for n, w in sorted(self.weapons.items()):
@@ -78,6 +93,15 @@ def do_op(pool: Pool, e):
     m = pool.m
     U = m.Unit
     a = e["a"]
+    if a == "EditTable":
+        pool.edit_table(pool.ammo_of[e["s"]])
+        return ("EditTable", pool.content[pool.ammo_of[e["s"]]])
+    if a == "FireBadTable":
+        try:
+            hr = pool.calcs[e["c"]].fire(pool.shots["sbad"], U.Foot(600), U.Foot(100))
+            return ("FireBadTable:returned", tuple(scen.row_fp(r) for r in hr.trajectory))
+        except Exception as x:  # noqa
+            return ("FireBadTable:" + type(x).__name__,)
     if a == "Build":
         mdl = m.DragModelMultiBC([m.BCPoint(0.26, V=U.FPS(2600)), m.BCPoint(0.24, Mach=1.2)], pool.ammos[pool.ammo_of[e["s"]]].dm.drag_table)
         return ("Build", impl.deep_fp(mdl))
@@ -118,7 +142,8 @@ def replay_sessions(chk, behs):
         for step, e in enumerate(b):
             sig.append(e["a"])
             zr = pool.zero_raw()
-            key_or = (e["a"], e["c"], e["s"], e["arg"], float(zr[pool.weapon_of[e["s"]]]).hex())
+            ct = dict(pool.content)
+            key_or = (e["a"], e["c"], e["s"], e["arg"], float(zr[pool.weapon_of.get(e["s"], "w1")]).hex(), tuple(sorted(ct.items())))
             o = impl.outcome(do_op, pool, e)
             chk.count(1, (bi, step) if step >= 1 else None)
             chk.stratum("op_" + e["a"])
@@ -129,17 +154,23 @@ def replay_sessions(chk, behs):
                 break
             # (i) function of the arguments: the same operation on freshly built equal objects, fresh calculator
             if key_or not in oracle:
-                fresh = Pool(zero_raw=zr)
+                fresh = Pool(zero_raw=zr, content=ct)
                 oracle[key_or] = do_op(fresh, e)
             if o[1] != oracle[key_or]:
                 chk.violation("C10.ResultDependsOnHistory", k, {**det, "result_kind": o[1][0], "fresh_kind": oracle[key_or][0]})
-            if e["ok"] and ":" in o[1][0]:
+            if e["a"] == "FireBadTable" and o[1][0] == "FireBadTable:returned":
+                pass   # reported above as a result that differs from the fresh calculator's (which raises)
+            elif e["ok"] and ":" in o[1][0]:
                 raise core.MachineryError(f"scenario binding: {e['a']} was expected to succeed but gave {o[1][0]}")
-            if not e["ok"] and ":" not in o[1][0] or (not e["ok"] and o[1][0].endswith(":returned")):
+            elif not e["ok"] and ":" not in o[1][0] or (not e["ok"] and o[1][0].endswith(":returned")):
                 raise core.MachineryError(f"scenario binding: {e['a']} was expected to raise but gave {o[1][0]}")
             # (ii) nothing mutated except the stored zero the spec allows to change
             new = pool.snapshot()
-            if new["rest"] != snap["rest"]:
+            if e["a"] == "EditTable":
+                chk.stratum("table_edited_in_place")
+                if pool.content != e["content"]:
+                    raise core.MachineryError("binding: table edit counts differ from the spec's")
+            elif new["rest"] != snap["rest"]:
                 chk.violation("C10.ArgumentMutated", k, det)
             if new["globals"] != snap["globals"]:
                 chk.violation("C10.GlobalsChanged", k, det)
@@ -335,7 +366,7 @@ def run(chk: core.Check, replay=None) -> None:
             "INVARIANT C10_NothingElseMutates\nPROPERTY C10_FailedZeroKeepsZero\n")
     cfg, defs = core.consts(d)
     r = chk.tlc(core.run_tlc("Session", cfg + body, defs=defs, coverage=True), f"Session depth {d['MaxOps']}")
-    for a in ("Fire", "FireRaises", "Zero", "ZeroRaises", "Danger", "Build"):
+    for a in ("Fire", "FireRaises", "Zero", "ZeroRaises", "Danger", "Build", "EditTable", "FireBadTable"):
         if not r.coverage.get(f"Session.{a}"):
             raise core.MachineryError(f"Session.{a} never taken")
     cfg, defs = core.consts(dict(d, DirtRule='"leaks"', MaxOps=2))
@@ -354,7 +385,8 @@ def run(chk: core.Check, replay=None) -> None:
     replay_sessions(chk, behs)
     chk.sample({"history": behs[0]})
     threads_part(chk, thorough, rng)
-    chk.require_strata(["op_Fire", "op_FireRaises", "op_Zero", "op_ZeroRaises", "op_Danger", "op_Build", "zero_written", "schedule",
+    chk.require_strata(["op_Fire", "op_FireRaises", "op_Zero", "op_ZeroRaises", "op_Danger", "op_Build", "op_EditTable", "op_FireBadTable",
+                        "table_edited_in_place", "zero_written", "schedule",
                         "free_running"])
     chk.exhaustive = False
     chk.rule.append("TLC-simulated session histories of 6 operations over 3 shots (shared weapon / shared ammunition, with and without "
